@@ -5,7 +5,7 @@ set -u
 P="$(readlink -f "$1")"; shift
 D=$(mktemp -d /tmp/seedscratch.XXXXXX)
 trap 'rm -rf "$D"' EXIT
-git -C /repo archive HEAD | tar -x -C "$D"
+git -C /repo archive HEAD | tar -x -C "$D"; [ -f /repo/Cargo.lock ] && cp /repo/Cargo.lock "$D"/
 ( cd "$D" && git init -q . >/dev/null 2>&1; git -C "$D" apply "$P" ) || { echo "patch does not apply"; exit 3; }
 cd /verif
 ./check "$@" --repo "$D" --no-write | grep -E "^(VIOLATION|KNOWN|R[0-9]+[a-z]:|C[0-9]+:|extraction)" | cut -c1-260
